@@ -143,6 +143,9 @@ def make(S, optsd, ml, oracle, pre_ok, suf_ok, thresh=None, twin=False, exit_ok=
             n = dv + len(S) + ev
             for (lab, sp, scm), (_l, np_, ncm) in zip(sflat, nflat):
                 spk = D._peek(sp, model)
+                if len(np_) != len(ncm):
+                    return 'C01 length: len(plain)=%d len(map)=%d part %s doc=%r' % (
+                        len(np_), len(ncm), lab, doc[:80])
                 if spk != np_ or list.__len__(list(scm)) != len(ncm):
                     return 'LINK text differs part %s: sym=%r nat=%r' % (lab, spk[:60], np_[:60])
                 cands = []
